@@ -16,6 +16,7 @@ BUILTIN = ("Real", "Integer", "Boolean", "String")
 KW = {"constant": "Kconstant", "parameter": "Kparameter", "input": "Kinput", "output": "Koutput",
       "discrete": "Kdiscrete", "flow": "Kflow", "stream": "Kstream", "state": "Kstate"}
 KNOWN_TAG = "output-string-variable"
+SHADOW_TAG = "loop-index-shadow-under-der"
 
 # ---------------------------------------------------------------------------------------------
 # Case structure (JSON):
@@ -78,11 +79,34 @@ def btype(case_or_types, cl):
     return cl["type"] if cl["type"] in BUILTIN else None
 
 
+def pr_function(f):
+    """User function with an algorithm section; optional for-STATEMENT with index f["loop"]."""
+    out = ["function %s" % f["name"]]
+    out += ["  input Real %s;" % n for n in f["inputs"]]
+    out.append("  output Real %s;" % f["output"])
+    if f.get("protected"):
+        out.append("protected")
+        out += ["  Real %s;" % n for n in f["protected"]]
+    out.append("algorithm")
+    acc = " + ".join(f["inputs"])
+    for n in f.get("protected", []):
+        out.append("  %s := %s;" % (n, acc))
+        acc = "2.0 * " + n
+    out.append("  %s := %s;" % (f["output"], acc))
+    if f.get("loop"):
+        out += ["  for %s in 1:3 loop" % f["loop"],
+                "    %s := 0.5 * %s + %s;" % (f["output"], f["output"], f["loop"]), "  end for;"]
+    out.append("end %s;" % f["name"])
+    return "\n".join(out)
+
+
 def to_text(case):
     out = []
     types = case.get("types", [])
+    funcs = case.get("functions", [])
     for i, c in enumerate(case["classes"]):
         out += [pr_alias(t) for t in types if t["pos"] == i]
+        out += [pr_function(f) for f in funcs if f["pos"] == i]
         out.append("model %s" % c["name"])
         for cl in c["decls"]:
             items = []
@@ -104,6 +128,7 @@ def to_text(case):
             out += [pr_eq(q) for q in c["eqs"]]
         out.append("end %s;" % c["name"])
     out += [pr_alias(t) for t in types if t["pos"] >= len(case["classes"])]
+    out += [pr_function(f) for f in funcs if f["pos"] >= len(case["classes"])]
     return "\n".join(out) + "\n"
 
 
@@ -121,6 +146,10 @@ def flat_of(case):
             if (t["pos"] == i or (c is None and t["pos"] > i)) and t.get("mods") and not pending:
                 n += 1                         # parser.py:670-673: a modification outside a declaration
                 pending = True                 # ... creates ONE symbol, reused until a declaration ends
+        for f in case.get("functions", []):
+            if f["pos"] == i or (c is None and f["pos"] > i):
+                n += len(f["inputs"]) + 1 + len(f.get("protected", []))   # function-local declarations
+                pending = False
         if c is None:
             break
         for cl in c["decls"]:
@@ -147,7 +176,7 @@ def flat_of(case):
             return ["op", "=", [ren(q[1], pre), ren(q[2], pre)]]
         if q[0] == "if":
             return ["op", "if", [ren(q[1], pre), ren_eq(q[2], pre), ren_eq(q[3], pre)]]
-        return ["op", "for", [ren_eq(q[3], pre)]]
+        return ["for", q[1], ren_eq(q[3], pre)]
 
     def walk(cname, pre):
         c = classes[cname]
@@ -180,22 +209,29 @@ def flat_of(case):
 
 
 # ---- independent reference (the property's spec, in Python) -----------------------------------
-def differentiated(exprs):
+def differentiated(exprs, scoped=True):
+    """Names of model variables occurring under der().  scoped=True (the property): a for-equation index
+    shadows a model variable of the same name inside the loop; scoped=False: every textual occurrence,
+    including subscripts, counts (what StateAnnotator does, known finding loop-index-shadow-under-der)."""
     out = set()
 
-    def go(e, d):
+    def go(e, d, bound=()):
         k = e[0]
         if k == "ref":
-            if d:
+            if d and not (scoped and e[1] in bound):
                 out.add(e[1])
+            if d and isinstance(e[2], str) and not (scoped and e[2] in bound):
+                out.add(e[2])
+        elif k == "for":
+            go(e[2], d, bound + (e[1],))
         elif k == "neg":
-            go(e[1], d)
+            go(e[1], d, bound)
         elif k == "der":
             for a in e[1]:
-                go(a, True)
+                go(a, True, bound)
         elif k in ("op", "call"):
             for a in e[2]:
-                go(a, d)
+                go(a, d, bound)
     for e in exprs:
         go(e, False)
     return out
@@ -213,9 +249,9 @@ def spec_category(prefixes, typ, is_diff):
     return "alg_states"
 
 
-def expected(case):
+def expected(case, scoped=True):
     syms, exprs = flat_of(case)
-    diff = differentiated(exprs)
+    diff = differentiated(exprs, scoped)
     exp = {k: [] for k in LISTS}
     decorated = sorted(enumerate(syms), key=lambda t: (t[1]["order"], t[0]))   # declaration order
     cat = {}
@@ -258,6 +294,11 @@ def judge(case, res):
         elif len(occ.get(s["name"], [])) != 1:
             return ("not-exactly-once", "variable %s appears in %s (expected exactly one list)"
                     % (s["name"], occ.get(s["name"], [])))
+    if any(got[k] != exp[k] for k in LISTS):
+        quirk = expected(case, scoped=False)[0]
+        if quirk != exp and all(got[k] == quirk[k] for k in LISTS):
+            return (SHADOW_TAG, "a model variable shadowed by a for-equation index is classified as a state because the "
+                    "index occurs in a subscript under der(): states = %s, property gives %s" % (got["states"], exp["states"]))
     for k in LISTS:
         if got[k] != exp[k]:
             if sorted(got[k]) != sorted(exp[k]):
@@ -270,7 +311,12 @@ def judge(case, res):
 def enc_expr(e, ids):
     k = e[0]
     if k == "ref":
-        return "ERef %s" % cq_nat(ids.get(e[1], 0))       # 0 = not a symbol of the class (loop index)
+        r = "ERef %s" % cq_nat(ids.get(e[1], 0))          # 0 = not a symbol of the class (loop index)
+        if isinstance(e[2], str):                          # the subscript is a ComponentRef and is walked too
+            return "EOp false [%s; ERef %s]" % (r, cq_nat(ids.get(e[2], 0)))
+        return r
+    if k == "for":
+        return "EOp false [%s]" % enc_expr(e[2], ids)
     if k == "lit":
         return "ELit"
     if k == "neg":
@@ -455,17 +501,68 @@ def gen_expr(rng, refs, arrays, depth, p_der, loopvar=None):
     return ["neg", gen_expr(rng, refs, arrays, depth - 1, p_der, loopvar)]
 
 
-def gen_eq(rng, refs, arrays, p_der):
+def gen_eq(rng, refs, arrays, p_der, shadow=()):
+    """shadow: names of model variables that may be (re)used as the index name of a for-equation."""
     x = rng.random()
     if x < 0.10:
         return ["if", gen_expr(rng, refs, arrays, 1, p_der), gen_eq_simple(rng, refs, arrays, p_der),
                 gen_eq_simple(rng, refs, arrays, p_der)]
+    if x < 0.18 and arrays and shadow and rng.random() < 0.45:
+        # index name = name of a model variable; inside the loop the name means the index, so the body neither
+        # mentions it under der nor uses the index in a subscript under der (see known finding SHADOW_TAG)
+        a = rng.choice(sorted(arrays))
+        idx = rng.choice(list(shadow))
+        inner = [r for r in refs if r != idx]
+        rhs = ["op", "*", [gen_expr(rng, inner, arrays, 1, p_der) if inner else ["lit", 2.0], ["ref", idx, None]]] \
+            if rng.random() < 0.5 else (gen_expr(rng, inner, arrays, 2, p_der) if inner else ["lit", 2.0])
+        rhs = strip_der_on(rhs, idx)
+        return ["for", idx, arrays[a], ["eq", ["ref", a, idx], rhs]]
     if x < 0.18 and arrays:
         a = rng.choice(sorted(arrays))
         body = ["eq", ["der", [["ref", a, "i"]]] if rng.random() < 0.6 else ["ref", a, "i"],
                 gen_expr(rng, refs, arrays, 1, p_der * 0.5, loopvar=("i", arrays[a]))]
         return ["for", "i", arrays[a], body]
     return gen_eq_simple(rng, refs, arrays, p_der)
+
+
+def strip_der_on(e, name):
+    """Replace der(...) nodes that mention `name` by their first argument (keeps the loop body free of
+    der applied to the shadowed name)."""
+    def mentions(e):
+        if e[0] == "ref":
+            return e[1] == name or e[2] == name
+        if e[0] == "lit":
+            return False
+        if e[0] == "neg":
+            return mentions(e[1])
+        return any(mentions(a) for a in (e[1] if e[0] == "der" else e[2]))
+    k = e[0]
+    if k in ("ref", "lit"):
+        return e
+    if k == "neg":
+        return ["neg", strip_der_on(e[1], name)]
+    if k == "der":
+        return strip_der_on(e[1][0], name) if mentions(e) else e
+    return [k, e[1], [strip_der_on(a, name) for a in e[2]]]
+
+
+def gen_functions(rng, n_classes, model_names):
+    """User functions with algorithm sections; local names (inputs / output / protected / for-statement
+    index) are drawn from the calling model's variable names most of the time."""
+    funcs = []
+    for k in range(rng.randint(1, 2)):
+        pool = list(model_names)
+        rng.shuffle(pool)
+        fresh = iter(["fa", "fb", "fc", "fd", "fe", "ff"])
+
+        def pick(p=0.7):
+            return pool.pop() if (pool and rng.random() < p) else next(fresh)
+        f = {"name": "F%d" % (k + 1), "inputs": [pick() for _ in range(rng.randint(1, 2))], "output": pick(),
+             "protected": [pick()] if rng.random() < 0.4 else [], "pos": rng.randint(0, n_classes)}
+        if rng.random() < 0.85:
+            f["loop"] = pick(0.85)
+        funcs.append(f)
+    return funcs
 
 
 def gen_eq_simple(rng, refs, arrays, p_der):
@@ -487,7 +584,22 @@ def gen_model(rng, allow_out_string=False):
         helpers.append((name, [r for r in refs if r not in arrays]))
     decls, refs, arrays = gen_class(rng, "M", helpers, 2, 9, allow_out_string, aliases)
     p_der = rng.choice([0.05, 0.15, 0.25, 0.4])
-    eqs = [gen_eq(rng, refs, arrays, p_der) for _ in range(rng.randint(1, 6))] if refs else []
+    scalars = [r for r in refs if "." not in r and r not in arrays]
+    eqs = [gen_eq(rng, refs, arrays, p_der, shadow=scalars) for _ in range(rng.randint(1, 6))] if refs else []
+    funcs = []
+    if scalars and rng.random() < 0.35:
+        # calls of user functions whose local names / for-statement indices coincide with model variables,
+        # and the clashing model variable differentiated in an ordinary equation
+        funcs = gen_functions(rng, nh + 1, scalars)
+        for f in funcs:
+            args = [gen_expr(rng, refs, arrays, 1, p_der) for _ in f["inputs"]]
+            eqs.append(["eq", ["ref", rng.choice(scalars), None], ["call", f["name"], args]])
+            clash = [n for n in [f.get("loop")] + f["inputs"] + [f["output"]] + f.get("protected", []) if n in scalars]
+            for n in clash[:2]:
+                if rng.random() < 0.7:
+                    eqs.append(["eq", ["op", "*", [["lit", 2.0], ["der", [["ref", n, None]]]]],
+                                gen_expr(rng, refs, arrays, 1, 0.1)])
+        rng.shuffle(eqs)
     ieqs = [gen_eq_simple(rng, refs, arrays, 0.5) for _ in range(rng.randint(0, 2))] if refs and rng.random() < 0.4 else []
     # der() in a declaration equation / start attribute of a plain Real
     if refs:
@@ -502,6 +614,8 @@ def gen_model(rng, allow_out_string=False):
     case = {"classes": classes, "main": "M", "kind": "random"}
     if types:
         case["types"] = types
+    if funcs:
+        case["functions"] = funcs
     # AST-level injection on top-level elementary symbols: arbitrary prefix subsets and orders
     if rng.random() < 0.30:
         inj = {}
@@ -586,7 +700,26 @@ def corpus_cases():
                      ["eq", D(R("level")), ["op", "+", [R("p.head"), D(["op", "*", [R("q.q_in"), R("q.ci")]])]]]], "ieqs": []}
     out.append({"classes": [Pump, Plant], "main": "M", "types": types, "kind": "corpus"})
     out.append({"classes": [Plant, Pump], "main": "M", "types": [dict(t, pos=2) for t in types], "kind": "corpus"})
+    # user functions with for-statements / locals named like differentiated model variables; for-equation in the
+    # model whose index is named like a model variable (used outside der only)
+    Coil = {"name": "M", "decls": [V(["parameter"], "Real", "L", value=0.5), V(["input"], "Real", "v"), V([], "Real", "i", "u", "y", "k"),
+                                   V([], "Real", "flux", dim=2), V(["output"], "Real", "v_eff", "heat")],
+            "eqs": [["eq", R("v_eff"), ["call", "Shape", [R("v"), R("k")]]],
+                    ["eq", ["op", "+", [["op", "*", [R("L"), D(R("i"))]], R("i")]], R("v_eff")],
+                    ["for", "k", 2, ["eq", R("flux", "k"), ["op", "*", [D(R("y")), R("k", None)]]]],
+                    ["eq", D(R("heat")), ["op", "*", [R("i"), D(R("u"))]]], ["eq", R("k"), ["lit", 1.0]]], "ieqs": []}
+    for pos in (0, 1):
+        out.append({"classes": [Coil], "main": "M", "kind": "corpus",
+                    "functions": [{"name": "Shape", "inputs": ["u", "heat"], "output": "y", "protected": ["flux"], "loop": "i", "pos": pos}]})
     return out
+
+
+def shadow_case():
+    """Known finding loop-index-shadow-under-der."""
+    return {"classes": [{"name": "M", "decls": [{"prefixes": [], "type": "Real", "items": [{"name": "i"}]},
+                                                 {"prefixes": [], "type": "Real", "items": [{"name": "v", "dim": 2}]}],
+                         "eqs": [["for", "i", 2, ["eq", ["der", [["ref", "v", "i"]]], ["lit", 1.0]]],
+                                 ["eq", ["ref", "i", None], ["lit", 3.0]]], "ieqs": []}], "main": "M", "kind": "known"}
 
 
 def known_case():
@@ -636,9 +769,9 @@ def run(ctx):
             fps[path] = "unreadable: %r" % e
     ctx.notes["source_fingerprint"] = fps
 
-    cases = corpus_cases() + probe_cases()
+    cases = corpus_cases() + [shadow_case()] + probe_cases()
     n_fixed = len(cases)
-    n_rand = ctx.scaled(300, 6000)
+    n_rand = ctx.scaled(250, 6000)
     for i in range(n_rand):
         cases.append(gen_model(ctx.rng, allow_out_string=(i % 25 == 0)))
     for _ in range(ctx.scaled(10, 60)):
@@ -699,7 +832,8 @@ def run(ctx):
     ctx.cov["distinct_nontrivial"] = len(nontrivial)
     ctx.cov["rule"] = ("%d fixed cases (hand-written corpus + finite table: 36 grammatical prefix combinations x 4 types x der?, "
                        "and all 128 subsets of 7 keywords x 4 types injected at AST level) + %d random flat models (0-2 helper "
-                       "classes, short-class type aliases incl. alias of alias on nested and top-level symbols, nested instances, arrays, for/if equations, der in expressions / initial equations / "
+                       "classes, short-class type aliases incl. alias of alias on nested and top-level symbols, nested instances, arrays, for/if equations, user functions with for-statements and locals named like model variables, for-equation "
+                       "indices named like model variables, der in expressions / initial equations / "
                        "declaration equations / start attributes; 30%% with AST-injected prefixes and orders) + malformed; "
                        "non-trivial = valid case with >= 2 flat symbols, distinct by (symbol table, text)" % (n_fixed, n_rand))
     ctx.cov["samples"] = [cases[0]["text"], cases[n_fixed]["text"], cases[n_fixed + 1].get("inject") or cases[n_fixed + 1]["text"]]
@@ -710,6 +844,8 @@ def run(ctx):
         "parser order counter over the file) is computed by the harness (vlib/c10.py flat_of) and is the model's input; "
         "pymoca's flattening itself is not modelled here (C07/C08)",
         "array index expressions in generated equations are literals or loop indices (not modelled as references)",
+        "known finding loop-index-shadow-under-der: subscripts are encoded as references (the annotator walks them), so the "
+        "Coq model agrees with the code; the scoping-aware Python oracle reports the input under its own tag",
         "known finding output-string-variable: the model mirrors the AttributeError as generate = None; theorems about "
         "the produced Model carry the carving hypothesis (C10_model_produced)",
     ]
